@@ -4,6 +4,7 @@
 #ifndef NV_STATE_H
 #define NV_STATE_H
 #include "nv_base.h"
+struct nv_function;
 struct nv_state
 {
   uint64_t ver;       /* ghost: identity of the point m_x; fresh at every write of m_x */
@@ -22,6 +23,9 @@ struct nv_state
   double   gtest;     /* ghost: value of gradient_test() on this state's own (m_fx, m_gx): fixed by the evaluation */
   int32_t  m_status;
   int64_t  m_fcalls, m_gcalls;
+  /* erased numerics of the real class (only named so that the constructor's initialisers can be printed) */
+  const struct nv_function* m_function;
+  struct nv_opaque m_x, m_gx, m_ceq, m_cineq, m_meq, m_mineq, m_lgx, m_history_df, m_history_dx;
 };
 struct nv_vector { uint64_t id; };
 struct nv_logger { int32_t dummy; };                     /* vector_t: ghost identity only */
@@ -30,8 +34,11 @@ struct nv_tuple_f64_f64 { double _0; double _1; };
 struct nv_lstep { double t; double f; double g; };       /* lsearch_step_t */
 uint64_t nv_ver_counter;                                 /* ghost: source of fresh point identities */
 
-/* solver_status (include/nano/solver/status.h); only distinctness matters */
+/* solver_status (include/nano/solver/status.h): generated from /repo's AST by targets that list it under `enums`
+ * (then NV_ENUM_solver_status is defined); the fallback below is only for targets where distinctness is all that matters */
+#ifndef NV_ENUM_solver_status
 enum { NVE_solver_status_max_iters = 0, NVE_solver_status_converged = 1, NVE_solver_status_failed = 2, NVE_solver_status_unfeasible = 3, NVE_solver_status_unbounded = 4 };
+#endif
 static _Bool  nv_state_valid(const struct nv_state* s) { return s->valid; }
 static double nv_state_fx(const struct nv_state* s) { return s->m_fx; }
 static double nv_state_dg(const struct nv_state* s, const struct nv_vector* d) { return s->dg; }
